@@ -74,6 +74,16 @@ def jitter_bad(pid, ob, call, res):
 
 
 def search(pid, ob, seed):
+    if ob.backend.startswith('kani'):
+        # Kani's own counterexample: the concrete values of every kani::any() of the failing harness (concrete playback);
+        # the harness runs the real compiled code, so re-running it *is* the replay on the real code
+        pb = ''
+        for d in ob.detail or []:
+            pb = d.get('concrete_playback') or pb
+        if pb.strip():
+            return dict(kind='kani_harness', harness=ob.id.split(':', 1)[1], location=ob.fn, concrete_playback=pb[:6000],
+                        explanation='values of the symbolic inputs on which the assertion of the harness fails; `./check --replay` re-runs the harness on the current tree')
+        return None
     unit = (ob.id.split('.')[0] if '.' in ob.id.split('#')[0].split('::')[0] else None)
     in_jitter = ob.id.startswith('jitter.') or 'JitterRng' in ob.fn or 'EcState' in ob.fn
     if in_jitter and 'discards_pending_half' in ob.id:
@@ -101,6 +111,19 @@ def search(pid, ob, seed):
 
 def replay(rec):
     ce = rec['failing_input']
+    if ce['kind'] == 'kani_harness':
+        from . import kani
+        for setname, hs in kani.SETS.items():
+            for h in hs:
+                if h.name == ce['harness']:
+                    out, secs, to, cmd = kani.run_harness(h)
+                    verdict = kani.parse(out)[0]
+                    print('re-running Kani harness %s on the current tree: %s (%.0fs)' % (h.qual, verdict, secs))
+                    print('recorded concrete values:\n' + ce.get('concrete_playback', '')[:3000])
+                    print('the violation %s' % ('REPRODUCES' if verdict == 'FAILED' else 'does not reproduce on the current tree'))
+                    return 1 if verdict == 'FAILED' else 0
+        print('harness not found: ' + ce['harness'])
+        return 2
     if ce['kind'] == 'jitter_timer_script':
         build_replay()
         res = run_replay(['jitter', ce['call'], ce['rounds'], ce['base'], ','.join(str(d) for d in ce['deltas'])])
